@@ -53,10 +53,43 @@ def loc_bound(ctx, rid):
         badp = [p for p in paths if any(e[0] == "test" and e[1] is h and e[2] for e in p.ev) and p.end != "raise"]
         ctx.ob(rid, SOC, "SoCLocHandler.add", "out-of-range raises", not badp, "" if not badp else "bound test true does not raise", h)
     fa = m.method("SoCLocHandler", "alloc")
-    fors = [n for n in ast.walk(fa) if isinstance(n, ast.For)]
-    ok = len(fors) == 1 and norm(fors[0].iter) == "range(self.n_locs)"
+    bad = _alloc_table(ctx, fa)
+    ok = not [b for b in bad if b[0] == "range"]
     ctx.ob(rid, SOC, "SoCLocHandler.alloc", "allocator ranges over range(n_locs)", ok,
-           "" if ok else f"allocator iterates {norm(fors[0].iter) if fors else '?'}", fa)
+           "" if ok else f"{bad[0][1]}", fa)
+
+
+def _alloc_table(ctx, fa):
+    """SoCLocHandler.alloc interpreted exactly (lxs/pyconst.py) for n_locs in {1, 2, 4} and every set of used locations: the lowest
+    free number below n_locs is returned, exhaustion raises.  [(kind, text)] of deviations."""
+    import itertools
+    from .. import pyconst
+    out = []
+    n_ev = 0
+    for n_locs in (1, 2, 4):
+        for k in range(n_locs + 1):
+            for used in itertools.combinations(range(n_locs), k):
+                locs = {f"r{u}": u for u in used}
+                me = pyconst.NS(n_locs=n_locs, locs=locs, name="csr")
+                try:
+                    got = pyconst.call(fa, {"self": me, "name": "new"})
+                except pyconst.Unknowable as ex:
+                    ctx.need(False, f"SoCLocHandler.alloc cannot be interpreted on constant tables ({ex})")
+                n_ev += 1
+                free = [x for x in range(n_locs) if x not in used]
+                want = ("return", free[0]) if free else ("raise", None)
+                if got != want:
+                    if got[0] == "return" and isinstance(got[1], int) and not (0 <= got[1] < n_locs):
+                        out.append(("range", f"alloc() hands out {got[1]} with locations {sorted(used)} in use: outside range(n_locs={n_locs})"))
+                    elif got[0] == "return" and got[1] is not None and got[1] in used:
+                        out.append(("free", f"alloc() hands out {got[1]} although locations {sorted(used)} are in use (n_locs={n_locs})"))
+                    elif got[0] == "return" and (got[1] is None or (free and False)) or (not free and got[0] != "raise"):
+                        out.append(("exhaust", f"alloc() returns {got[1]!r} with all {n_locs} locations in use instead of raising"))
+                    else:
+                        out.append(("range", f"alloc() yields {got} with locations {sorted(used)} of {n_locs} in use, expected {want}: the allocator "
+                                             f"does not hand out the lowest free number of range(n_locs)"))
+    ctx.analysed["paths"] += n_ev
+    return out
 
 
 def run(ctx):
@@ -284,18 +317,12 @@ def run(ctx):
                "" if not badp else f"test `{tst}` true does not raise", fn)
     loc_bound(ctx, "A3")
     fa = m.method("SoCLocHandler", "alloc")
-    pa = P.feasible_paths(fa)
-    bad = None
-    for p in pa:
-        if p.end == "return" and p.end_node.value is not None:
-            tests = [(norm(t), pol) for t, pol in p.tests_before(len(p.ev))]
-            if not any((t == "n not in self.locs.values()" and pol) or (t == "n in self.locs.values()" and not pol)
-                       for t, pol in tests):
-                bad = p
-    ctx.ob("A1", SOC, "SoCLocHandler.alloc", "returned number is free", bad is None,
-           "" if bad is None else "alloc returns a number without the not-in-use test", fa)
-    falls = [p for p in pa if p.end == "fall"]
-    ctx.ob("A1", SOC, "SoCLocHandler.alloc", "exhaustion raises", not falls, "" if not falls else "alloc can fall off the end (returns None)", fa)
+    dev = _alloc_table(ctx, fa)
+    bad = [d for d in dev if d[0] == "free"]
+    ctx.ob("A1", SOC, "SoCLocHandler.alloc", "returned number is free", not bad,
+           "" if not bad else bad[0][1], fa)
+    falls = [d for d in dev if d[0] == "exhaust"]
+    ctx.ob("A1", SOC, "SoCLocHandler.alloc", "exhaustion raises", not falls, "" if not falls else falls[0][1], fa)
 
     # ================= A1/A2: decoder
     fd = m.method("SoCRegion", "decoder")
@@ -395,13 +422,13 @@ def run(ctx):
             if si < 0:
                 continue
             nst += 1
-            pre = [(norm(t), pol) for t, pol in p.tests_before(si)]
-            if not any(t == test for t, pol in pre):
-                bad = "store reachable without the duplicate-name test"
-            elif any(t == test and pol for t, pol in pre):
-                # duplicate detected and yet stored: only allowed for add_constant(check_duplicate=False)
-                if not (meth == "add_constant" and any(t == "check_duplicate" and not pol for t, pol in pre)):
+            # only add_constant(check_duplicate=False) may skip the test or store a name that exists
+            waived = meth == "add_constant" and P.has_test(p, "check_duplicate", False, upto=si)
+            if P.has_test(p, test, True, upto=si):
+                if not waived:
                     bad = "a duplicate name is stored"
+            elif not P.has_test(p, test, False, upto=si) and not waived:
+                bad = "store reachable without the duplicate-name test"
         ctx.ob("A5", SOC, f"{cls}.{meth}", f"`{test}` dominates the insertion and rejects duplicates", bad is None and nst > 0,
                "" if (bad is None and nst) else (bad or f"no store into {reg}"), fn)
     fn = m.method("SoC", "check_if_exists")
@@ -488,28 +515,29 @@ def _lookup_wildcard(ctx):
     ctx.analysed["functions"].add(f"{GP}::_lookup")
     a = [x.arg for x in fn.args.args]
     ctx.need(len(a) >= 3, "_lookup(description, name, number, ...): signature changed")
-    loops = [n for n in fn.body if isinstance(n, ast.For) and isinstance(n.target, ast.Name) and norm(n.iter) == a[0]]
-    ctx.need(len(loops) == 1, "_lookup: loop over the description not found")
-    ifs = [n for n in loops[0].body if isinstance(n, ast.If) and any(isinstance(x, ast.Return) and norm(x.value) == loops[0].target.id for x in n.body)]
-    ctx.need(len(ifs) == 1, "_lookup: `if <match>: return resource` not found")
+    from .. import pyconst
     bad = None
     n_ev = 0
+    desc0 = [("led", 0, "pins-led0"), ("btn", 0, "pins-btn0"), ("led", 1, "pins-led1"), ("btn", 1, "pins-btn1")]
+    desc = desc0
     try:
-        for rname in ("led", "btn"):
-            for rnum in (0, 1):
-                for number in (None, 0, 1):
-                    got = bool(_pyeval(ifs[0].test, {loops[0].target.id: (rname, rnum), a[1]: "led", a[2]: number}))
-                    want = rname == "led" and (number is None or rnum == number)
+        for d in (desc0, desc0[::-1]):
+            for name in ("led", "btn", "sw"):
+                for number in (None, 0, 1, 2):
+                    got = pyconst.call(fn, {a[0]: d, a[1]: name, a[2]: number, **({a[3]: True} if len(a) > 3 else {})})
+                    hits = [r for r in d if r[0] == name and (number is None or r[1] == number)]
+                    want = ("return", hits[0] if hits else None)
                     n_ev += 1
                     if got != want and bad is None:
-                        bad = (rname, rnum, number, got)
-    except (KeyError, ValueError, IndexError, TypeError) as ex:
-        ctx.need(False, f"_lookup: match test `{norm(ifs[0].test)}` not understood ({ex})")
+                        bad = (name, number, got, want)
+                        desc = d
+    except pyconst.Unknowable as ex:
+        ctx.need(False, f"_lookup: cannot be interpreted on a constant description ({ex})")
     ctx.analysed["paths"] += n_ev
     ctx.ob("A4", GP, "_lookup", "match = same name and (number is None or same number); 0 is a number, not the wildcard", bad is None,
-           "" if bad is None else f"`{norm(ifs[0].test)}` is {bad[3]} for resource ({bad[0]!r}, {bad[1]}) requested as ('led', {bad[2]}): an explicit "
-                                  f"request for number {bad[2]} is served with another resource of that name -- two clients share one IO name, the "
-                                  f"rightful request is refused later", ifs[0])
+           "" if bad is None else f"_lookup(description, {bad[0]!r}, {bad[1]}, loose) yields {bad[2][1]!r} on {[r[:2] for r in desc]}, expected {bad[3][1]!r}: an "
+                                  f"explicit request for a number is served with another resource of that name (or refused) -- two clients share one "
+                                  f"IO name, the rightful request is refused later", fn)
 
 
 def _none_test(e, var):
